@@ -24,8 +24,11 @@ PROBS = (0.0, 0.25, 0.5, 0.75, 1.0, 0.1)
 DYADIC_P = (0.0, 0.25, 0.5, 0.75, 1.0)
 TOL = 1e-9
 OFFSETS = (10 ** 6, 10 ** 8, 1700000000, 2 ** 40, -10 ** 9, 2 ** 30)
-UNIT_POW2 = (-40, -30, -20, -10, 10, 20, 40)
-UNIT_DEC = (1e-5, 1e-9, 1e6)
+# units <= 1 only: the comparison's absolute part is scaled DOWN with the unit (case_tol); for units above 1 it would stay at 1e-9
+# while the rounding noise of an exactly-zero covariance grows with the unit (false alarm of the thorough tier, DESIGN 0.4);
+# large magnitudes are covered by the offset stream and the weight scales
+UNIT_POW2 = (-40, -30, -20, -10, -5, -1)
+UNIT_DEC = (1e-5, 1e-9, 1e-3)
 WPOWS = (-60, -40, -20, 20, 40)
 OFFSET_KINDS = ("stddev", "quantile", "covariance", "corrcoef")
 EPOCH0 = 1577836800  # 2020-01-01T00:00:00, datetime facts are EPOCH0 + small second offsets
@@ -81,8 +84,8 @@ def gen_case(rng, kind):
         offset = rng.choice(OFFSETS)
         unit = 1024 if abs(offset) >= 2 ** 38 else 1
         fact = [[float(offset) + x * unit for x in row] for row in fact]
-    # fact UNIT stream: the same facts in another unit - every column times an exact power of two 2^-40..2^40 (everything
-    # stays exact: the statistic must scale exactly, correlation must be bit-identical) or a decimal unit 1e-5 / 1e-9 / 1e6
+    # fact UNIT stream: the same facts in another unit - every column times an exact power of two 2^-40..2^-1 (everything
+    # stays exact: the statistic must scale exactly, correlation must be bit-identical) or a decimal unit 1e-3 / 1e-5 / 1e-9
     # (the rounded products ARE the input; not for correlation, where a constant non-dyadic column has a rounding-noise
     # variance and NumPy's entry - mathematically undefined, not compared - differs from the exact model's); the factor
     # is global or chosen per column.  Not combined with the offset stream (the tolerance is relative to the unit).
@@ -791,8 +794,8 @@ def run(ctx):
                 "arrays in every integer dtype and layout, interacting_shape (signed AND unsigned NumPy scalars, F25) and probability as NumPy "
                 "scalars, integer-dtype weight arrays and int lists for every weighted statistic incl. covariance (F26); NOT generated "
                 "(outside the quantifier): interacting_shape as a list, (N,1) weights, (N,1) facts for min/max, datetime64 units other than [s]; "
-                "about 30 % of the float-fact cases of every statistic are fact-UNIT cases: every column times a power of two 2^-40..2^40 or a "
-                "decimal unit 1e-5 / 1e-9 / 1e6 (decimal not for correlation: rounding-noise variance of constant non-dyadic columns), "
+                "about 30 % of the float-fact cases of every statistic are fact-UNIT cases: every column times a power of two 2^-40..2^-1 or a "
+                "decimal unit 1e-3 / 1e-5 / 1e-9 (decimal not for correlation: rounding-noise variance of constant non-dyadic columns), "
                 "globally or per column; compared with the model on the scaled input (absolute part of the tolerance scaled to the "
                 "unit) AND, for power-of-two units, as a metamorphic relation on the implementation (same facts in unit 1: bit-identical "
                 "correlation, covariance x f_i f_j, variance x f^2, quantile/min/max x f); offsets now include 2^30; "
